@@ -6,6 +6,7 @@ import (
 	"fmt"
 	"math"
 	"math/big"
+	"regexp"
 	"strconv"
 
 	"github.com/icon-project/goloop/common"
@@ -71,7 +72,15 @@ func clampU64(v *big.Int) uint64 {
 
 func c24Gen(g *Gen) {
 	for i := 0; i < g.N; i++ {
-		switch g.Intn(13) {
+		switch g.Intn(16) {
+		case 13:
+			g.Emit("parse_big %s", c24Text(g, 0))
+		case 14:
+			bits := g.Pick(16, 32, 64)
+			g.Emit("parse_int %d %s", bits, c24Text(g, bits))
+		case 15:
+			bits := g.Pick(16, 32, 64)
+			g.Emit("parse_uint %d %s", bits, c24Text(g, bits))
 		case 0:
 			g.Emit("i64 %d", clampI64(c24Big(g)))
 		case 1:
@@ -127,9 +136,124 @@ func c24Gen(g *Gen) {
 	}
 }
 
+// c24Text: ASCII number-like text for the three parsers: formatted numbers
+// (hex / decimal / other prefixes), then mutated: separators, signs, case,
+// stray characters, values at the 16/32/64-bit range boundaries.
+func c24Text(g *Gen, bits int) string {
+	var v *big.Int
+	if bits > 0 && g.Intn(10) < 6 {
+		// in range for the width under test (any bit length up to bits)
+		v = new(big.Int).SetUint64(g.R.Uint64() >> uint(63-g.Intn(bits)))
+		if g.Intn(4) == 0 {
+			v.Neg(v)
+		}
+		return c24Mutate(g, v)
+	}
+	switch g.Intn(4) {
+	case 0:
+		k := g.Pick(15, 16, 31, 32, 63, 64)
+		v = new(big.Int).Lsh(big.NewInt(1), uint(k))
+		v.Add(v, big.NewInt(int64(g.Intn(5)-2)))
+		if g.Intn(2) == 0 {
+			v.Neg(v)
+		}
+	default:
+		v = c24Big(g)
+	}
+	return c24Mutate(g, v)
+}
+
+func c24Mutate(g *Gen, v *big.Int) string {
+	neg := v.Sign() < 0
+	a := new(big.Int).Abs(v)
+	var body string
+	switch g.Intn(8) {
+	case 0, 1, 2:
+		body = "0x" + a.Text(16)
+	case 3:
+		body = a.Text(10)
+	case 4:
+		body = []string{"0b", "0B", "0o", "0O", "0X", "0"}[g.Intn(6)] + a.Text(g.Pick(2, 8, 16, 8))
+	case 5:
+		body = "0X" + a.Text(16)
+	case 6:
+		body = "0" + a.Text(10)
+	default:
+		body = "0x" + a.Text(16)
+	}
+	bs := []byte(body)
+	const alpha = "0123456789abcdefABCDEFxXoObB_+-gz.__00"
+	for m := g.Pick(0, 0, 0, 1, 1, 2, 3); m > 0; m-- {
+		switch g.Intn(5) {
+		case 0: // insert a separator
+			p := g.Intn(len(bs) + 1)
+			bs = append(bs[:p], append([]byte{'_'}, bs[p:]...)...)
+		case 1: // insert a stray char
+			p := g.Intn(len(bs) + 1)
+			bs = append(bs[:p], append([]byte{alpha[g.Intn(len(alpha))]}, bs[p:]...)...)
+		case 2: // upper-case a char
+			if len(bs) > 0 {
+				p := g.Intn(len(bs))
+				if bs[p] >= 'a' && bs[p] <= 'z' {
+					bs[p] -= 32
+				}
+			}
+		case 3: // delete a char
+			if len(bs) > 0 {
+				p := g.Intn(len(bs))
+				bs = append(bs[:p], bs[p+1:]...)
+			}
+		default: // replace
+			if len(bs) > 0 {
+				bs[g.Intn(len(bs))] = alpha[g.Intn(len(alpha))]
+			}
+		}
+	}
+	sign := ""
+	if neg {
+		sign = "-"
+	} else if g.Intn(8) == 0 {
+		sign = "+"
+	}
+	if g.Intn(40) == 0 {
+		sign += []string{"-", "+"}[g.Intn(2)]
+	}
+	res := sign + string(bs)
+	if res == "" || g.Intn(60) == 0 {
+		res = []string{"0", "-", "+", "_", "0x", "0_", "-0", "+0x_1", "0x_1", "1_000", "0_1", "0__1", "+012", "012", "1__0"}[g.Intn(15)]
+	}
+	return res
+}
+
+// canonical hex text: optional sign, 0x, no superfluous leading zero, lower case
+// (the non-negative part is the jsonrpc validator's t_int pattern).
+var c24HexMinimal = regexp.MustCompile(`\A-?0x(0|[1-9a-f][0-9a-f]*)\z`)
+
 type c24Runner struct{}
 
 func (c24Runner) Step(t []string, o *Oracle) string {
+	if len(t) == 3 && (t[0] == "parse_int" || t[0] == "parse_uint") {
+		bits, err := strconv.Atoi(t[1])
+		if err != nil || (bits != 16 && bits != 32 && bits != 64) {
+			return "bad-op"
+		}
+		if t[0] == "parse_int" {
+			v, err := intconv.ParseInt(t[2], bits)
+			if err != nil {
+				o.Count("parse_int-err")
+				return "err"
+			}
+			o.Count("parse_int-ok")
+			return fmt.Sprintf("ok %d", v)
+		}
+		v, err := intconv.ParseUint(t[2], bits)
+		if err != nil {
+			o.Count("parse_uint-err")
+			return "err"
+		}
+		o.Count("parse_uint-ok")
+		return fmt.Sprintf("ok %d", v)
+	}
 	if len(t) != 2 {
 		return "bad-op"
 	}
@@ -182,15 +306,36 @@ func (c24Runner) Step(t []string, o *Oracle) string {
 		o.Check(h2.Cmp(v) == 0, "hexint-bytes-roundtrip", "HexInt bytes round trip %s -> %s", v, &h2.Int)
 		return hx(bs)
 	case "d_i64":
-		v, ok := intconv.SafeBytesToInt64(unhx(arg))
+		in := unhx(arg)
+		v, ok := intconv.SafeBytesToInt64(in)
+		o.Check(ok == (len(in) <= 8), "i64-decoder-accepts-iff-len-le-8", "SafeBytesToInt64(%x) ok=%v", in, ok)
 		if !ok {
+			o.Count("d_i64-reject")
 			return "err"
+		}
+		if len(in) > 0 {
+			enc := intconv.Int64ToBytes(v)
+			o.Check(len(enc) <= len(in), "i64-encoder-not-shortest", "%x decodes to %d but Int64ToBytes gives longer %x", in, v, enc)
+			o.Check(len(enc) != len(in) || string(enc) == string(in), "i64-encoding-not-unique", "%x and %x both decode to %d", in, enc, v)
 		}
 		return fmt.Sprintf("ok %d", v)
 	case "d_u64":
-		v, ok := intconv.SafeBytesToUint64(unhx(arg))
+		in := unhx(arg)
+		v, ok := intconv.SafeBytesToUint64(in)
+		if len(in) > 0 && in[0]&0x80 != 0 {
+			o.Check(!ok, "u64-decoder-accepts-sign-bit", "SafeBytesToUint64(%x) accepted", in)
+		}
+		if len(in) > 9 || (len(in) == 9 && in[0] != 0) {
+			o.Check(!ok, "u64-decoder-accepts-overlong", "SafeBytesToUint64(%x) accepted", in)
+		}
 		if !ok {
+			o.Count("d_u64-reject")
 			return "err"
+		}
+		if len(in) > 0 {
+			enc := intconv.Uint64ToBytes(v)
+			o.Check(len(enc) <= len(in), "u64-encoder-not-shortest", "%x decodes to %d but Uint64ToBytes gives longer %x", in, v, enc)
+			o.Check(len(enc) != len(in) || string(enc) == string(in), "u64-encoding-not-unique", "%x and %x both decode to %d", in, enc, v)
 		}
 		return fmt.Sprintf("ok %d", v)
 	case "d_size":
@@ -200,7 +345,13 @@ func (c24Runner) Step(t []string, o *Oracle) string {
 		}
 		return fmt.Sprintf("ok %d", v)
 	case "d_big":
-		v := intconv.BigIntSetBytes(new(big.Int), unhx(arg))
+		in := unhx(arg)
+		v := intconv.BigIntSetBytes(new(big.Int), in)
+		if len(in) > 0 {
+			enc := intconv.BigIntToBytes(v)
+			o.Check(len(enc) <= len(in), "big-encoder-not-shortest", "%x decodes to %s but BigIntToBytes gives longer %x", in, v, enc)
+			o.Check(len(enc) != len(in) || string(enc) == string(in), "big-encoding-not-unique", "%x and %x both decode to %s", in, enc, v)
+		}
 		return "ok " + v.String()
 	case "fmt_big":
 		v, ok := new(big.Int).SetString(arg, 10)
@@ -211,6 +362,7 @@ func (c24Runner) Step(t []string, o *Oracle) string {
 		back := new(big.Int)
 		err := intconv.ParseBigInt(back, s)
 		o.Check(err == nil && back.Cmp(v) == 0, "hex-roundtrip", "FormatBigInt(%s)=%s parses to %s (%v)", v, s, back, err)
+		o.Check(c24HexMinimal.MatchString(s) && (s[0] == '-') == (v.Sign() < 0), "hex-text-not-minimal", "FormatBigInt(%s)=%s has a superfluous leading zero / wrong sign / upper case", v, s)
 		var h common.HexInt
 		h.Set(v)
 		js, _ := h.MarshalJSON()
@@ -226,6 +378,23 @@ func (c24Runner) Step(t []string, o *Oracle) string {
 		s := intconv.FormatInt(v)
 		back, err := intconv.ParseInt(s, 64)
 		o.Check(err == nil && back == v, "hex-roundtrip-i64", "FormatInt(%d)=%s parses to %d (%v)", v, s, back, err)
+		o.Check(c24HexMinimal.MatchString(s) && (s[0] == '-') == (v < 0), "hex-text-not-minimal-i64", "FormatInt(%d)=%s", v, s)
+		// the JSON wrappers of common/hexint.go at every width the value fits
+		{
+			js, _ := common.HexInt64{Value: v}.MarshalJSON()
+			var h common.HexInt64
+			o.Check(h.UnmarshalJSON(js) == nil && h.Value == v, "hexint64-json-roundtrip", "HexInt64 %d -> %s -> %d", v, js, h.Value)
+		}
+		if v >= math.MinInt32 && v <= math.MaxInt32 {
+			js, _ := common.HexInt32{Value: int32(v)}.MarshalJSON()
+			var h common.HexInt32
+			o.Check(h.UnmarshalJSON(js) == nil && int64(h.Value) == v, "hexint32-json-roundtrip", "HexInt32 %d -> %s -> %d", v, js, h.Value)
+		}
+		if v >= math.MinInt16 && v <= math.MaxInt16 {
+			js, _ := common.HexInt16{Value: int16(v)}.MarshalJSON()
+			var h common.HexInt16
+			o.Check(h.UnmarshalJSON(js) == nil && int64(h.Value) == v, "hexint16-json-roundtrip", "HexInt16 %d -> %s -> %d", v, js, h.Value)
+		}
 		return s
 	case "fmt_u64":
 		v, err := strconv.ParseUint(arg, 10, 64)
@@ -235,12 +404,30 @@ func (c24Runner) Step(t []string, o *Oracle) string {
 		s := intconv.FormatUint(v)
 		back, err := intconv.ParseUint(s, 64)
 		o.Check(err == nil && back == v, "hex-roundtrip-u64", "FormatUint(%d)=%s parses to %d (%v)", v, s, back, err)
+		o.Check(c24HexMinimal.MatchString(s) && s[0] != '-', "hex-text-not-minimal-u64", "FormatUint(%d)=%s", v, s)
+		{
+			js, _ := common.HexUint64{Value: v}.MarshalJSON()
+			var h common.HexUint64
+			o.Check(h.UnmarshalJSON(js) == nil && h.Value == v, "hexuint64-json-roundtrip", "HexUint64 %d -> %s -> %d", v, js, h.Value)
+		}
+		if v <= math.MaxUint32 {
+			js, _ := common.HexUint32{Value: uint32(v)}.MarshalJSON()
+			var h common.HexUint32
+			o.Check(h.UnmarshalJSON(js) == nil && uint64(h.Value) == v, "hexuint32-json-roundtrip", "HexUint32 %d -> %s -> %d", v, js, h.Value)
+		}
+		if v <= math.MaxUint16 {
+			js, _ := common.HexUint16{Value: uint16(v)}.MarshalJSON()
+			var h common.HexUint16
+			o.Check(h.UnmarshalJSON(js) == nil && uint64(h.Value) == v, "hexuint16-json-roundtrip", "HexUint16 %d -> %s -> %d", v, js, h.Value)
+		}
 		return s
 	case "parse_big":
 		v := new(big.Int)
 		if err := intconv.ParseBigInt(v, arg); err != nil {
+			o.Count("parse_big-err")
 			return "err"
 		}
+		o.Count("parse_big-ok")
 		return "ok " + v.String()
 	}
 	return "bad-op"
